@@ -618,8 +618,17 @@ pub fn atom_candidates(vals: &[f64], min_c: u64) -> Vec<(f64, u64)> {
         i = j;
     }
     out.sort_by(|a, b| b.1.cmp(&a.1));
-    out.truncate(32);
+    out.truncate(4096);
     out
+}
+
+/// smallest count that can reject at all when every output-grid cell is allowed at least `p_floor`
+pub fn atom_min_count(m: u64, p_floor: f64) -> u64 {
+    let mut c = 2u64;
+    while c < 10_000 && atom_stat(c, m, p_floor) > LN_ALPHA_ATOM {
+        c += 1;
+    }
+    c
 }
 
 pub fn atom_rejections(law: &RefLaw, sl: &Slack, ft: Ft, cands: &[(f64, u64)], m: u64) -> Vec<Rejection> {
@@ -663,7 +672,9 @@ pub fn check_law(job: &LawJob) -> LawOutcome {
         let m: usize = if job.n >= 50_000_000 { 1 << 23 } else if job.n >= 8_000_000 { 1 << 21 } else { 1 << 20 };
         atom_draws = m as u64;
         let raw = job.sampler.raw(m, job.seed);
-        let cands = atom_candidates(&raw, 2);
+        // every value frequent enough to be rejectable is examined (f32 cells have many legitimately repeated
+        // values; ranking by raw count alone would hide an atom of 20 copies behind them)
+        let cands = atom_candidates(&raw, atom_min_count(m as u64, sl.rho_abs));
         let rej = atom_rejections(job.law, &sl, cell.ft, &cands, m as u64);
         if !rej.is_empty() {
             // confirm on an independent stream of 4m draws: count exact matches of the flagged values
